@@ -68,3 +68,43 @@ package server
 //@ func (t *Teamserver) handleRequest$1(key any, value any, client **Client, pk *packager.Package, t **Teamserver, id *string, isExist *bool) (r bool)
 //@   requires ctx: *t != nil && *client != nil && allunlocked("Havoc/cmd/server.Client", "Mutex")
 //@   modifies *
+
+// ---------------------------------------------------------------------------
+// C16: listener registry. Names stay unique; a listener is appended exactly when
+// ListenerStart succeeds; the in-memory entry is only removed after the database
+// row was removed.
+//@ spec lnameOf(ty, info) = ite(ty == handlers.LISTENER_HTTP, unboxed(info, handlers.HTTPConfig).Name, ite(ty == handlers.LISTENER_PIVOT_SMB, unboxed(info, handlers.SMBConfig).Name, unboxed(info, handlers.ExternalConfig).Name))
+//@ spec noNilListeners(t) = forall(i, 0, len(t.Listeners), t.Listeners[i] != nil)
+
+//@ func (t *Teamserver) ListenerExist(Name string) (ok bool)
+//@   requires nonnil: t != nil && noNilListeners(t)
+//@   pure
+//@   ensures sound:    ok ==> exists(i, 0, len(t.Listeners), t.Listeners[i].Name == Name)
+//@   ensures complete: forall(i, 0, len(t.Listeners), t.Listeners[i].Name == Name ==> ok)
+//@   loop "for _, l := range t.Listeners"
+//@     invariant none: forall(k, 0, idx__, t.Listeners[k].Name != Name)
+
+//@ func (t *Teamserver) ListenerStart(ListenerType int, info any) (err error)
+//@   requires nonnil: t != nil && noNilListeners(t)
+//@   requires kind: (ListenerType == handlers.LISTENER_HTTP && typeis(info, handlers.HTTPConfig)) || (ListenerType == handlers.LISTENER_PIVOT_SMB && typeis(info, handlers.SMBConfig)) || (ListenerType == handlers.LISTENER_EXTERNAL && typeis(info, handlers.ExternalConfig))
+//@   modifies t.Listeners, t.Listeners[len(t.Listeners)], t.Endpoints, t.Endpoints[len(t.Endpoints)]
+//@   ensures unique: err == nil ==> forall(i, 0, old(len(t.Listeners)), old(t.Listeners)[i].Name != lnameOf(ListenerType, info))
+//@   ensures added:  err == nil ==> (len(t.Listeners) == old(len(t.Listeners)) + 1 && t.Listeners[old(len(t.Listeners))] != nil && t.Listeners[old(len(t.Listeners))].Name == lnameOf(ListenerType, info) && t.Listeners[old(len(t.Listeners))].Type == ListenerType)
+//@   ensures kept:   forall(i, 0, old(len(t.Listeners)), t.Listeners[i] == old(t.Listeners)[i])
+//@   ensures failed: err != nil ==> len(t.Listeners) == old(len(t.Listeners))
+//@   loop "for _, listener := range t.Listeners"
+//@     invariant none: forall(k, 0, idx__, t.Listeners[k].Name != lnameOf(ListenerType, info))
+
+//@ func (t *Teamserver) EndpointAdd(endpoint *Endpoint) (ok bool)
+//@   requires nonnil: t != nil && endpoint != nil && forall(i, 0, len(t.Endpoints), t.Endpoints[i] != nil)
+//@   modifies t.Endpoints, t.Endpoints[len(t.Endpoints)]
+//@   ensures unique: ok ==> forall(i, 0, old(len(t.Endpoints)), old(t.Endpoints)[i].Endpoint != endpoint.Endpoint)
+//@   ensures added:  ok ==> (len(t.Endpoints) == old(len(t.Endpoints)) + 1 && t.Endpoints[old(len(t.Endpoints))] == endpoint)
+//@   ensures dup:    !ok ==> (sameslice(t.Endpoints, old(t.Endpoints)))
+//@   loop "for _, e := range t.Endpoints"
+//@     invariant none: forall(k, 0, idx__, t.Endpoints[k].Endpoint != endpoint.Endpoint)
+
+//@ func (t *Teamserver) ListenerRemove(Name string) (ls []*Listener, evs []packager.Package)
+//@   requires nonnil: t != nil && noNilListeners(t) && t.DB != nil && allunlocked("Havoc/cmd/server.Client", "Mutex")
+//@   modifies *
+//@   guard-store persisted: "Teamserver\.Listeners.*" lastresult(ListenerRemove) == nil
